@@ -24,10 +24,13 @@ type replayFile struct {
 }
 
 type replayOutcome struct {
-	Cmd       string `json:"cmd"`
-	Output    string `json:"output"`
-	Confirmed bool   `json:"confirmed"`
-	Note      string `json:"note,omitempty"`
+	Cmd       string                 `json:"cmd,omitempty"`
+	Driver    string                 `json:"driver,omitempty"`
+	Output    string                 `json:"output,omitempty"`
+	Observed  map[string]interface{} `json:"observed,omitempty"`
+	Pinned    []string               `json:"pinned,omitempty"`
+	Confirmed bool                   `json:"confirmed"`
+	Note      string                 `json:"note,omitempty"`
 }
 
 func safeFile(s string) string {
@@ -86,6 +89,7 @@ func report(eng *Engine, prop, tier string, seed int, start time.Time, runs []*R
 	var knownHit []string
 	discharged := 0
 	counted := 0
+	skipped := 0
 	bySolver := map[string]int{}
 	solverTime := 0.0
 	for _, o := range obls {
@@ -97,11 +101,18 @@ func report(eng *Engine, prop, tier string, seed int, start time.Time, runs []*R
 			continue
 		}
 		if f, ok := known[o.Name]; ok {
-			knownHit = append(knownHit, fmt.Sprintf("KNOWN-FINDING: property=%s obligation=%s %s", f.Prop, o.Name, strings.TrimSpace(strings.SplitN(f.Text, "—", 2)[len(strings.SplitN(f.Text, "—", 2))-1])))
+			knownHit = append(knownHit, fmt.Sprintf("KNOWN-FINDING: property=%s obligation=%s %s", pid, o.Name, strings.TrimSpace(strings.SplitN(f.Text, "—", 2)[len(strings.SplitN(f.Text, "—", 2))-1])))
 			continue
 		}
 		counted++
+		if o.Status == "not-attempted" {
+			skipped++
+			continue
+		}
 		viols = append(viols, viol{o.Name, o.Status, o})
+	}
+	if skipped > 0 {
+		viols = append(viols, viol{fmt.Sprintf("tool:%d further obligations were not attempted", skipped), "functions that already fail several obligations (or the run's time budget) leave their remaining obligations undecided", nil})
 	}
 	for _, n := range vanished {
 		if _, ok := known[n]; ok {
@@ -125,6 +136,7 @@ func report(eng *Engine, prop, tier string, seed int, start time.Time, runs []*R
 	if !*flagNoEvid {
 		os.RemoveAll(replayDir) //nolint:errcheck
 	}
+	modelSearches := 0
 	for _, v := range viols {
 		rf := &replayFile{Property: pid, Obligation: v.name, Status: v.reason, Solver: map[string]string{}}
 		noInput := true
@@ -152,6 +164,25 @@ func report(eng *Engine, prop, tier string, seed int, start time.Time, runs []*R
 					}
 				} else {
 					rf.Reason = "no solver discharged this obligation within the time limit (it is discharged on the pinned tree)"
+					if !*flagNoReplay && q.Run != nil && (q.Kind == "ensures" || q.Kind == "safety") && modelSearches < 3 && replayableFn(q.Run.fn) {
+						modelSearches++
+						// look for a candidate input with concrete definitions and no axioms, then check it on the real code
+						if m := findModel(eng, q); m != nil {
+							rf.Model = parseModel(m.Model)
+							saved := q.Result
+							q.Result = m
+							q.concrete = true
+							if out := tryReplay(eng, q, rf.Model); out != nil {
+								rf.Replay = out
+								if out.Confirmed {
+									noInput = false
+									rf.Reason += "; a failing input was found with concrete definitions and confirmed on the real code"
+								}
+							}
+							q.concrete = false
+							q.Result = saved
+						}
+					}
 				}
 				break
 			}
@@ -322,4 +353,15 @@ func parseModel(out string) map[string]string {
 		visit(f)
 	}
 	return m
+}
+
+// findModel retries an undecided query in model-finding mode.
+func findModel(eng *Engine, q *Query) *SolveResult {
+	q.concrete = true
+	defer func() { q.concrete = false }()
+	r := solveScript(q, eng.C, filepath.Dir(q.Result.File), 20, false, q.PC, ".concrete")
+	if r.Status == "sat" {
+		return r
+	}
+	return nil
 }
